@@ -6,6 +6,8 @@ batch kinds and seeded priorities, and requires all per-element requests of one 
 to travel in one flush; aretry runs against injected failure sequences on the simulated clock."""
 import itertools
 
+import zlib
+
 from .. import real, gen
 from ..prog import SimError, HarnessError
 
@@ -13,6 +15,38 @@ A = real.A
 from asynq import tools as T  # noqa: E402
 
 HELPERS = ["amap", "afilter", "afilterfalse", "asorted", "amax", "amin", "asift", "afilter_none", "aretry"]
+
+
+class CoarseKey(object):
+    """A key whose equality is coarser than its ordering (equal by family, ordered by version):
+    max / min / sorted only use <, and so must the helpers."""
+
+    def __init__(self, n):
+        self.n = n
+
+    def __lt__(self, other):
+        return self.n < other.n
+
+    def __gt__(self, other):
+        return self.n > other.n
+
+    def __le__(self, other):
+        return self.n <= other.n
+
+    def __ge__(self, other):
+        return self.n >= other.n
+
+    def __eq__(self, other):
+        return isinstance(other, CoarseKey) and self.n // 2 == other.n // 2
+
+    def __ne__(self, other):
+        return not self == other
+
+    def __hash__(self):
+        return hash(self.n // 2)
+
+    def __repr__(self):
+        return "CK%d" % self.n
 
 
 class Unorderable(object):
@@ -67,6 +101,10 @@ class C14(object):
                 "k_fail": rng.randint(0, 6), "max_tries": rng.randint(1, 6), "listed": rng.random() < 0.75,
                 "multi_exc": rng.random() < 0.3, "concurrent": rng.choice([1, 1, 2, 3]),
                 "key_kind": rng.choice(["asynq", "asynq", "made", "method", "proxy"])}
+        # (derived from the case, so that the generator's stream is unchanged)
+        d = zlib.crc32(repr(sorted(case.items())).encode())
+        case["retry_body"] = "proxy_issue" if d % 3 == 0 else "asynq"
+        case["coarse_keys"] = (d // 3) % 3 == 0
         return case
 
     def sample(self, case, r):
@@ -102,6 +140,9 @@ class C14(object):
         mod = max(1, int(case.get("mod", 2)))
         blocking = bool(case.get("blocking"))
         raise_on = case.get("key_raises_on")
+        coarse = bool(case.get("coarse_keys")) and h in ("asorted", "amax", "amin")
+        if coarse:
+            probes["coarse_equality_keys"] = 1
         nitem = [0]
         my_items = []
 
@@ -109,6 +150,8 @@ class C14(object):
             kv = _keyval(x, mod)
             if raise_on is not None and kv == raise_on and isinstance(x, int) and x < 0:
                 raise ValueError("key refuses %r" % (x,))
+            if coarse:
+                return CoarseKey(kv)
             return kv
 
         @A.asynq()
@@ -277,6 +320,27 @@ class C14(object):
                 excs.append(e)
                 raise e
             return ("ok", x, y, n)
+        if case.get("retry_body") == "proxy_issue":
+            # the retried callable is an async_proxy; an attempt fails while the request is being
+            # issued (the .asynq() call itself raises), not while it is awaited
+            asynq_body = body
+
+            @A.asynq()
+            def later(x, y, n):
+                if case.get("blocking"):
+                    yield real.SimItem(B.current[0], "r.i%d" % n, "k", B)
+                return ("ok", x, y, n)
+
+            @A.async_proxy()
+            def body(x, y=0):
+                calls[0] += 1
+                n = calls[0]
+                if n <= kf:
+                    e = (ListedA if n % 2 else ListedB)("fail#%d" % n) if listed else Unlisted("fail#%d" % n)
+                    excs.append(e)
+                    raise e
+                return later.asynq(x, y, n)
+            probes["retry_issue_time_failure"] = 1
         exc_cls = (ListedA, ListedB) if case.get("multi_exc") or True else ListedA
         wrapped = T.aretry(exc_cls, max_tries=mt, sleep=0.25)(body)
         slept0 = clock.slept
